@@ -39,6 +39,10 @@ CONSTANTS Procs,          \* API callers (positive integers); a proc's token is 
           BugExtendNoToken,   \* negative: extend script without the token comparison
           BugThreshold,       \* negative: cancel() one key too late (released > Maj)
           BugIgnoreInval,     \* negative: invalidations do not signal the waiters' gate
+          BugLostByCause,     \* negative: the early cancel() only counts keys lost to non-ErrNotLocked errors (keys taken,
+                              \*           deleted or expired are left to the `released` counter): mixed causes cancel too late
+          DiscParkedOnly,     \* scope of Disconnect: only the connection of a client with a parked WithContext caller drops
+          BugNilNoGate,       \* negative: the nil invalidation (connection lost) signals the csc channels but not the gate
           Record              \* keep the action history (scenario generation)
 
 Keys == 0..(K-1)
@@ -133,9 +137,10 @@ Begin(p) == /\ phase[p] = "idle" /\ calls[p] < MaxCalls
 ExitMon(p, i, e) ==
    /\ kerr' = [kerr EXCEPT ![p][i] = e]
    /\ IF FixCancelFirst
-        THEN /\ ks' = [ks EXCEPT ![p][i] = "counted"]
-             /\ lost' = [lost EXCEPT ![p] = @ + 1]
-             /\ cancelled' = [cancelled EXCEPT ![p] = @ \/ lost[p] + 1 >= (IF BugThreshold THEN Maj + 1 ELSE Maj)]
+        THEN LET n == IF BugLostByCause /\ e = "notlocked" THEN 0 ELSE 1 IN
+             /\ ks' = [ks EXCEPT ![p][i] = "counted"]
+             /\ lost' = [lost EXCEPT ![p] = @ + n]
+             /\ cancelled' = [cancelled EXCEPT ![p] = @ \/ (n = 1 /\ lost[p] + 1 >= (IF BugThreshold THEN Maj + 1 ELSE Maj))]
         ELSE /\ ks' = [ks EXCEPT ![p][i] = "exiting"] /\ UNCHANGED <<lost, cancelled>>
 
 \* acquire(err, key_i, csc_i, force): drain csc_i; a real script unless the carried error is ErrNotLocked; go monitoring(err)
@@ -347,9 +352,10 @@ Expire(i)    == expires < MaxExpire /\ expires' = expires + 1 /\ UNCHANGED extde
 \* the connection of client c drops and is re-established: the server forgets what it tracked for it, pushes in
 \* flight are lost, the client calls onInvalidations(nil): every csc channel and the gate channel get a token
 Disconnect(c) == /\ discs < MaxDisc /\ discs' = discs + 1
+                 /\ DiscParkedOnly => \E p \in Procs : ClientOf[p] = c /\ phase[p] = "waiting"
                  /\ tracked' = [tracked EXCEPT ![c] = {}] /\ inflight' = [inflight EXCEPT ![c] = {}]
                  /\ csc' = [csc EXCEPT ![c] = [i \in Keys |-> gw[c] > 0]]
-                 /\ gch' = [gch EXCEPT ![c] = gw[c] > 0]
+                 /\ gch' = [gch EXCEPT ![c] = IF BugNilNoGate THEN @ ELSE gw[c] > 0]
                  /\ Rec([a |-> "Disconnect", p |-> c, i |-> -1, m |-> ""])
                  /\ UNCHANGED <<key, phase, idx, carried, acquired, failures, released, lost, ks, kerr, cancelled, srcDone, tryErr, gaveup,
                                 calls, gw, tainted, badRelease, badExtend, ioerrs, acqerrs, extdels, expires, srccancels>>
@@ -399,8 +405,16 @@ CountersOK == \A p \in Procs : released[p] = Cardinality({i \in Keys : ks[p][i] 
 \* a try that is over left none of its keys behind
 \* the extend script only prolongs a key that carries the caller's token
 ExtendsOwnKeyOnly == ~badExtend
-\* a try that has counted a majority of its keys as gone has cancelled its context
-CancelAtMajorityLoss == \A p \in Procs : (IF FixCancelFirst THEN lost[p] ELSE released[p]) >= Maj => cancelled[p]
+\* A try that has given up a majority of its keys has cancelled its context, whatever made each monitoring loop end
+\* and in every combination of causes: the key was found taken / deleted / expired (ErrNotLocked), an extend or an
+\* acquire failed with another error, the context was done.  (Code as found, FixCancelFirst = FALSE: the cancel comes
+\* only with the `released` counter, after the delkey - finding 1.)
+LostBy(p, e) == Cardinality({i \in Keys : ks[p][i] \notin {"untried", "monitoring"} /\ kerr[p][i] = e})
+Causes == {"notlocked", "io", "ctx"}
+LostAll(p) == LostBy(p, "notlocked") + LostBy(p, "io") + LostBy(p, "ctx")
+CancelAtMajorityLoss == \A p \in Procs : (IF FixCancelFirst THEN LostAll(p) ELSE released[p]) >= Maj => cancelled[p]
+\* the library's `lost` counter is that sum
+LostCounterOK == FixCancelFirst /\ ~BugLostByCause => \A p \in Procs : lost[p] = LostAll(p)
 NoStaleKeys == \A p \in Procs : phase[p] \in {"idle", "waiting"} => Held(p) = 0
 
 LostMajority(p) == phase[p] = "locked" /\ Held(p) < Maj
